@@ -228,3 +228,37 @@ def is_hpath_value(v):
     if isinstance(v, HPath):
         return True
     return isinstance(v, SAtom) and any(isinstance(ATOMS.vals[i], HPath) for i in v.dom)
+
+
+def apply_wire_cube(h, fx, cube):
+    """cube split on connections: `cube` = {wire local slot: [pin gids in order]} fixes the complete pin list of
+    those wires; every pin that could only sit on one of these wires (net-local) and is not listed is unconnected"""
+    u = h.u
+    sh = fx["shape"]
+    def_of_wire = {}
+    for (P, p, lst), kids in sh.items():
+        if P == "Definition" and lst == "_cables":
+            for c in kids:
+                for w in sh.get(("Cable", c, "_wires"), []):
+                    def_of_wire[w] = p
+    for w, pins in cube.items():
+        cap = u.cap("Wire", "_pins")
+        h.ls[("Wire", "_pins")][w] = (len(pins), list(pins) + [NONE_ID] * (cap - len(pins)))
+    # candidate pins per definition
+    for d in set(def_of_wire[w] for w in cube):
+        wires_d = [w for w, dd in def_of_wire.items() if dd == d]
+        if not all(w in cube for w in wires_d):
+            continue
+        cands = []
+        for port in sh.get(("Definition", d, "_ports"), []):
+            cands += [("InnerPin", k) for k in sh.get(("Port", port, "_pins"), [])]
+        for i in sh.get(("Definition", d, "_children"), []):
+            for p in range(u.live["InnerPin"]):
+                t = h.pinmap[i][p]
+                if t != NONE_ID:
+                    cands.append(("OuterPin", u.cls_of(t)[1]))
+        for c, k in cands:
+            g = u.gid(c, k)
+            on = [w for w in wires_d if g in cube[w]]
+            h.sc[(c, "_wire")][k] = u.gid("Wire", on[0]) if on else NONE_ID
+    return h
